@@ -33,40 +33,29 @@ def uncps(l) -> str:
     return "".join(chr(c) for c in l)
 
 
+import re as _re
+
+_TOK = _re.compile(r"[()]|[^\s()]+")
+
+
 def loads(s: str):
-    s = s.strip()
-    pos = 0
-    n = len(s)
-
-    def parse():
-        nonlocal pos
-        while pos < n and s[pos] in " \t\r\n":
-            pos += 1
-        if pos >= n:
-            raise ValueError("eof")
-        c = s[pos]
-        if c == "(":
-            pos += 1
-            out = []
-            while True:
-                while pos < n and s[pos] in " \t\r\n":
-                    pos += 1
-                if pos >= n:
-                    raise ValueError("unterminated list")
-                if s[pos] == ")":
-                    pos += 1
-                    return out
-                out.append(parse())
-        e = pos
-        while e < n and s[e] not in " \t\r\n()":
-            e += 1
-        tok = s[pos:e]
-        pos = e
-        if tok.startswith("#"):
-            return bytes.fromhex(tok[1:])
-        if tok.lstrip("-").isdigit():
-            return int(tok)
-        return Sym(tok)
-
-    v = parse()
-    return v
+    stack = [[]]
+    for tok in _TOK.findall(s):
+        if tok == "(":
+            stack.append([])
+        elif tok == ")":
+            if len(stack) < 2:
+                raise ValueError("unbalanced )")
+            top = stack.pop()
+            stack[-1].append(top)
+        elif tok[0] == "#":
+            stack[-1].append(bytes.fromhex(tok[1:]))
+        else:
+            c = tok[0]
+            if c.isdigit() or (c == "-" and len(tok) > 1 and tok[1:].isdigit()):
+                stack[-1].append(int(tok))
+            else:
+                stack[-1].append(Sym(tok))
+    if len(stack) != 1 or len(stack[0]) != 1:
+        raise ValueError("bad s-expression")
+    return stack[0][0]
